@@ -44,7 +44,7 @@ def bad_operator(inputs, value):
 
 
 def run(ctx: Ctx):
-  for r in (r1, r2, r3, r4, r8, r9, r10, r13, r15, r16):
+  for r in (r1, r2, r3, r4, r8, r9, r10, r13, r15, r16, r18):
     ctx.guard(r)
   from mlmverif.props import c18, c19
   ctx.include('R-C08-5', '"leaves the caller\'s input objects untouched": the'
@@ -312,6 +312,45 @@ def r16(ctx: Ctx):
                  ' key then depends on the record being a container — on int / str / object records it raises KeyError'
                  ' instead of contributing its constant', node=nd.ast)
   ctx.floor(rule, 2, n)
+
+
+def r18(ctx: Ctx):
+  rule = 'R-C08-18'
+  ctx.rule(rule, '"all key shapes (single, ... index ...)": Key.Index(0) (an int subclass), the dict key 0 and the key \'\' are'
+           ' FALSY valid keys. In the operator builders of TreeTransform a parameter that takes raw keys (annotated'
+           ' TreeMapKey / TreeMapKeys) is never used in a truth position (`x or default`, `if x`, `not x`) before it is'
+           ' normalised into a tuple: a missing key is detected with `is None` / `== ()`. `output_keys or input_keys` routes'
+           ' select(\'a\', output_keys=Index(0)) under \'a\' instead of position 0 — silently mis-routed — and'
+           ' `assign_keys or output_keys` rejects assign(0, ...) as having no keys')
+  from mlmverif.props.c17 import _truth_positions
+  ci = ctx.repo.cls('chainables.transform', 'TreeTransform')
+  n = 0
+  for name, fi in ci.methods.items():
+    a = fi.node.args
+    keyparams = {p.arg for p in a.args + a.kwonlyargs if p.annotation is not None and 'TreeMapKey' in unparse(p.annotation)}
+    if not keyparams:
+      continue
+    n += 1
+    # a parameter re-bound to a normalised tuple is fine from then on
+    normalised_at = {}
+    for x in walk_no_nested(fi.node):
+      if isinstance(x, ast.Assign) and isinstance(x.value, ast.Call) and unparse(x.value.func).endswith(('normalize_keys', 'tuple')):
+        for t in x.targets:
+          if isinstance(t, ast.Name) and t.id in keyparams:
+            normalised_at[t.id] = min(normalised_at.get(t.id, 10**9), x.lineno)
+    bad = None
+    for t in _truth_positions(fi.node):
+      if isinstance(t, ast.Name) and t.id in keyparams and t.lineno <= normalised_at.get(t.id, 10**9):
+        bad = bad or t
+    what = f'TreeTransform.{name}: raw key parameters {sorted(keyparams)} are not tested by truth'
+    if bad is None:
+      ctx.ok(rule, fi, what, fi.node)
+    else:
+      ctx.fail(rule, fi, what,
+               f'`{bad.id}` (line {bad.lineno}) is used in a truth position in TreeTransform.{name}: the valid keys Index(0), 0'
+               ' and \'\' are falsy, so they are taken for "no key given" — the operator silently routes to its default key'
+               ' or rejects the key', node=bad)
+  ctx.floor(rule, 4, n)
 
 
 
@@ -774,6 +813,12 @@ from mlmverif.selfcheck import B, OK  # noqa: E402
 _F = 'chainables/tree_fns.py'
 _T = 'chainables/transform.py'
 VARIANTS = [
+    B('revert-select-defaults-output-key-by-truth', 'chainables/transform.py',
+      "    if output_keys is None or output_keys == ():  # pylint: disable=g-explicit-bool-comparison\n      output_keys = input_keys\n",
+      "    output_keys = output_keys or input_keys\n", 'R-C08-18'),
+    OK('select-defaults-only-none', 'chainables/transform.py',
+       "    if output_keys is None or output_keys == ():  # pylint: disable=g-explicit-bool-comparison\n      output_keys = input_keys\n",
+       "    if output_keys is None:\n      output_keys = input_keys\n"),
     B('literal-after-the-container-check', 'chainables/tree.py',
       "      if isinstance(k, Literal):\n        return k.value\n      if types.is_array_like(data) or isinstance(data, Mapping):\n        data = data[k]\n      else:\n        raise KeyError(",
       "      if not (types.is_array_like(data) or isinstance(data, Mapping)):\n        raise KeyError('not a container')\n      if isinstance(k, Literal):\n        return k.value\n      if True:\n        data = data[k]\n      else:\n        raise KeyError(",
